@@ -427,3 +427,29 @@ Lemma count_types_src :
   hd ("", "") (f_params src_parallel_for_internal) = ("nTasks", "int") /\
   for_decl_types src_LocalTask_ExecuteRange = [("i", "uint32_t")].
 Proof. repeat (split; [vm_compute; reflexivity|]). vm_compute. reflexivity. Qed.
+
+(* ------------------------------------------------------------------ the dispatch carries no state between loops *)
+(* parallel_for_impl is ONE statement per backend, and the TBB call's argument list is closed: exactly
+   (first, last, body) — no task_group_context / partitioner object shared between calls — and no local is static *)
+Definition no_static (f : func) : bool :=
+  forallb (fun pt => negb (String.eqb (substring 0 7 (snd pt)) "static ")) (decl_types (f_body f)).
+Lemma dispatch_stateless_src :
+  (exists sig a b c, f_body src_impl_tbb_int = [Exp (Call "parallel_for" sig [a; b; c])]) /\
+  (exists sig a b c, f_body src_impl_tbb_size_t = [Exp (Call "parallel_for" sig [a; b; c])]) /\
+  (exists sig a c, f_body src_impl_internal_int = [Exp (Call "parallel_for_internal" sig [a; c])]) /\
+  (exists sig a c, f_body src_impl_internal_size_t = [Exp (Call "parallel_for_internal" sig [a; c])]) /\
+  (exists d c i e n b, f_body src_impl_omp_int = [Omp d c [For i e n b]]) /\
+  (exists d c i e n b, f_body src_impl_omp_size_t = [Omp d c [For i e n b]]) /\
+  (exists i e n b, f_body src_impl_debug_int = [For i e n b]) /\
+  (exists i e n b, f_body src_impl_debug_size_t = [For i e n b]) /\
+  forallb no_static [src_impl_tbb_int; src_impl_tbb_size_t; src_impl_omp_int; src_impl_omp_size_t;
+                     src_impl_internal_int; src_impl_internal_size_t; src_impl_debug_int; src_impl_debug_size_t;
+                     src_parallel_for_internal; src_blocks_u32_1024; src_blocks_u32_1024_lambda0; src_blocks_i32_4;
+                     src_blocks_i32_4_lambda0; src_foreach_iter; src_foreach_iter_lambda0; src_foreach_container] = true.
+Proof.
+  split; [do 4 eexists; reflexivity|]. split; [do 4 eexists; reflexivity|].
+  split; [do 3 eexists; reflexivity|]. split; [do 3 eexists; reflexivity|].
+  split; [do 6 eexists; reflexivity|]. split; [do 6 eexists; reflexivity|].
+  split; [do 4 eexists; reflexivity|]. split; [do 4 eexists; reflexivity|].
+  vm_compute. reflexivity.
+Qed.
